@@ -194,10 +194,16 @@ class AstToSqlVisitor(visitor.NodeVisitor):
         right = self.visit(node.right)
         comparator = self.visit(node.comparator)
 
-        # In case of a subexpression, wrap it in parentheses
-        if isinstance(node.left, (ast.BoolOp, ast.Compare)):
+        # In case of a subexpression, wrap it in parentheses.
+        # NOT binds less tightly than a comparison in SQL, so it needs them too.
+        def is_subexpression(operand: ast._Node) -> bool:
+            return isinstance(operand, (ast.BoolOp, ast.Compare)) or (
+                isinstance(operand, ast.UnaryOp) and isinstance(operand.op, ast.Not)
+            )
+
+        if is_subexpression(node.left):
             left = f"({left})"
-        if isinstance(node.right, (ast.BoolOp, ast.Compare)):
+        if is_subexpression(node.right):
             right = f"({right})"
 
         #  'null eq/ne x' means the same as 'x eq/ne null':
